@@ -77,6 +77,12 @@ def run(ctx, chk):
            'single-precision values on the way from the report to the bound: %s' % (
                [(a.split('::')[-1], w) for a, _, w in narrow][:4] or 'none (%d float assignments seen, all f64)' % n_float))
     chk.floor('C07.F6', 'float assignments on the bound chain', n_float, 3)
+    # ---- F7 the formula is applied to what chronyd answered: the poller ships the reply of its query as it is (C13.P4). A
+    # "correction" applied to the report on the way (to the signed offset, say) changes the bound before the formula sees it.
+    from . import C13
+    n7 = common.import_obligations(ctx, chk, C13, 'C07', LEVEL, lambda o: o['rule'] == 'C13.P4' and o['key'].startswith('data:tracking-is-the-reply'), 'C07.F7')
+    if not getattr(chk, '_nested', False):
+        chk.floor('C07.F7', 'data paths of the poller checked for shipping the reply unaltered (imported)', n7, 1)
     for i in sync:
         where = i['path'].where[2]
         v = i['stores'][bound_field]
